@@ -134,19 +134,71 @@ pub fn run(args: &Args) {
     let mut agg = Aggregate::new();
     let hostile = prop == "C12";
     let n = match prop.as_str() { "C12" => args.n(1_500, 100_000), _ => args.n(300, 10_000) };
-    run_cases(&mut agg, args, if hostile { "hostile" } else { "save-open" }, n, |_i, rng, model| {
+    let streams: Vec<(&str, u64)> = if hostile { vec![("hostile", n)] } else { vec![("save-open", n), ("large", args.n(8, 64))] };
+    for (stream, count) in streams {
+    let large = stream == "large";
+    run_cases(&mut agg, args, stream, count, |case_i, rng, model| {
         let mut o = CaseOutcome::default();
         let (db, markers, pmarkers, htags) = {
             // hostile cases use ingredients of ONE class (3 of 4 cases) so that a failure is attributable
             let only = if hostile && rng.chance(3, 4) { Some(*rng.pick(HOSTILE_CLASSES)) } else { None };
             let mut g = G::new(rng, if hostile { Mode::Hostile } else { Mode::Lossless }, prop == "C08");
             g.only = only;
-            let db = g.database(true);
+            let mut db = g.database(true);
+            if large {
+                // sizes around the boundaries that block-wise code tends to use: payloads of 64 KiB .. 2 MiB,
+                // single protected values above 64 KiB, exact powers of two
+                use keepass::db::{Entry, Node, Value, HeaderAttachment};
+                use keepass::config::{CompressionConfig, OuterCipherConfig, KdfConfig};
+                db.config.kdf_config = KdfConfig::Aes { rounds: 1 };
+                if case_i % 2 == 0 { db.config.outer_cipher_config = OuterCipherConfig::ChaCha20; db.config.compression_config = CompressionConfig::None; }
+                for j in 0..(40 + g.rng.below(400)) {
+                    let mut e = Entry::default();
+                    e.uuid = g.uuid();
+                    e.fields.insert("Title".into(), Value::Unprotected(g.text()));
+                    e.fields.insert("UserName".into(), Value::Unprotected(format!("user{}", j)));
+                    e.fields.insert("Password".into(), Value::Protected(g.text().as_bytes().into()));
+                    e.times = g.times();
+                    db.root.children.push(Node::Entry(e));
+                }
+                let mut big = Entry::default();
+                big.uuid = g.uuid();
+                let n = 65_536 + g.rng.below(20_000) as usize;
+                let body: String = (0..n).map(|k| (b'a' + ((k * 7 + case_i as usize) % 26) as u8) as char).collect();
+                let tail_marker = g.text();
+                big.fields.insert("Notes".into(), Value::Protected(format!("{}{}", body, tail_marker).as_bytes().into()));
+                big.times = g.times();
+                db.root.children.push(Node::Entry(big));
+                db.header_attachments.push(HeaderAttachment { flags: 1, content: vec![0x5a; 1000] });
+            }
             if let Some(c) = only { g.hostile_tags.push(format!("class-only:{}", c)); }
             (db, g.markers, g.protected_markers, g.hostile_tags)
         };
         let password = rng.pick(&["pw", "", "p\u{e4}ss", "a b"]).to_string();
         let draws: Vec<Vec<u8>> = draw_sizes(&db.config).into_iter().map(|n| rng.bytes(n)).collect();
+        let mut db = db;
+        if large && case_i % 2 == 0 {
+            // probe save, then size the last attachment so that the (stream-cipher, uncompressed) payload
+            // is exactly a power of two (or one byte off)
+            if let Ok((probe, _)) = save_scripted(&db, &password, &draws) {
+                if let Ok(sp) = strict::read(&probe, &key_elements(Some(&password), None)) {
+                    let cur = sp.payload_encrypted.len();
+                    let up = |m: usize| ((cur + 16) / m + 1) * m; // next multiple of m above the current size
+                    let target = match (case_i / 2) % 8 {
+                        0 => up(1 << 20),          // exact multiple of 1 MiB (the block size KeePass uses)
+                        1 => up(1 << 16),          // exact multiple of 64 KiB
+                        2 => 2 * (1 << 20),        // 2 MiB
+                        3 => up(1 << 20) - 1,
+                        4 => up(1 << 20) + 1,
+                        5 => up(1 << 12),          // exact multiple of 4 KiB
+                        6 => up(1 << 16) + 1,
+                        _ => up(1 << 18),
+                    };
+                    if let Some(a) = db.header_attachments.last_mut() { a.content.extend(std::iter::repeat(0x5a).take(target - cur)); }
+                }
+            }
+        }
+        let db = db;
         let before = db.clone();
         let cfg_s = config_term(&db.config);
         o.tags.push(format!("cfg:{}", cfg_s.split(' ').skip(1).take(3).collect::<Vec<_>>().join("/")));
@@ -251,15 +303,16 @@ pub fn run(args: &Args) {
         // ---------- framing correspondence: writer byte-exact, reader field-exact ----------
         let vd_s = slist(s.vd_order.iter().map(|(k, v)| format!("({} {})", hexatom(k), v)));
         let atts_s = slist(db.header_attachments.iter().map(|a| format!("({} {})", a.flags, hexatom(&a.content))));
-        let dump_req = format!("(dump4 {} {} {} {} {} {})", cfg_s, slist(draws.iter().map(|d| hexatom(d))), vd_s, elements_term(&els), atts_s, hexatom(&s.xml));
-        let dump_model = model.eval_with(&dump_req, &oracle::serve);
+        if bytes.len() > 400_000 { o.tags.push("model:skipped-large".into()); }
+        let dump_req = if bytes.len() > 400_000 { String::new() } else { format!("(dump4 {} {} {} {} {} {})", cfg_s, slist(draws.iter().map(|d| hexatom(d))), vd_s, elements_term(&els), atts_s, hexatom(&s.xml)) };
         let want = format!("ok {}", hexatom(&bytes));
+        let dump_model = if dump_req.is_empty() { want.clone() } else { model.eval_with(&dump_req, &oracle::serve) };
         if dump_model != want {
             o.disagreement = Some((format!("save bytes {}", &want[..want.len().min(120)]), format!("model dump4 {}", &dump_model[..dump_model.len().min(120)])));
         }
         let dec_req = format!("(decrypt4 {} {})", hexatom(&bytes), elements_term(&els));
-        let dec_model = model.eval_with(&dec_req, &oracle::serve);
         let want = format!("ok {} {} {} {}", config_read_term(&db.config), atts_s, hexatom(&draws[2]), hexatom(xml_impl.as_ref().unwrap_or(&s.xml)));
+        let dec_model = if bytes.len() > 400_000 { want.clone() } else { model.eval_with(&dec_req, &oracle::serve) };
         if dec_model != want && o.disagreement.is_none() {
             o.disagreement = Some((want.chars().take(200).collect(), dec_model.chars().take(200).collect()));
         }
@@ -303,13 +356,14 @@ pub fn run(args: &Args) {
         }
         o
     });
+    }
     write_report(
         args,
         &agg,
         if hostile {
             "databases from the hostile generator over the public structs (empty/blank strings and keys, C0/C1 controls, U+FFFE/FFFF, CR, separators, markup, Value::Bytes incl. invalid UTF-8, protected values empty / invalid UTF-8, empty icons and binaries, odd time-stamp names, sub-second times, extreme integers and dates) x cheap KDBX4 configurations; each is saved (random source scripted) and re-opened under catch_unwind; non-trivial = at least one hostile ingredient used; distinct = distinct (configuration, size, draws)"
         } else {
-            "databases over the whole public object model inside the lossless domain (every field of Database/Meta/Group/Entry/Times/AutoType/History/CustomData/BinaryAttachment/Icon/HeaderAttachment/DeletedObject, strings with markup, LF/TAB, leading/trailing blanks, astral code points, years 1..9999, integer extremes, colours with small components) x KDBX4 configurations (3 outer ciphers x 2 compressions x 3 inner ciphers x AES-KDF rounds, minor versions); saved with scripted draws, re-opened, decoded by the independent strict reader, and pushed through the extracted dump4/decrypt4 model; non-trivial = at least three nodes; distinct = distinct (configuration, size, draws)"
+            "databases over the whole public object model inside the lossless domain (every field of Database/Meta/Group/Entry/Times/AutoType/History/CustomData/BinaryAttachment/Icon/HeaderAttachment/DeletedObject, strings with markup, LF/TAB, leading/trailing blanks, astral code points, years 1..9999, integer extremes, colours with small components) x KDBX4 configurations (3 outer ciphers x 2 compressions x 3 inner ciphers x AES-KDF rounds, minor versions); saved with scripted draws, re-opened, decoded by the independent strict reader, and pushed through the extracted dump4/decrypt4 model; non-trivial = at least three nodes; distinct = distinct (configuration, size, draws); stream `large`: the same with 40..440 extra entries, one protected value above 64 KiB, a 1000-byte attachment, and (every second case, ChaCha20 without compression) the payload sized to exactly 2^17/2^18/2^20/2^21 bytes or one byte off"
         },
         serde_json::json!({}),
     );
